@@ -416,8 +416,8 @@ static int tk_run(const uint8_t *hist, int n, uint64_t hash[2], void *arg)
 #define W 0      /* witness */
 #define F 1      /* faulty client */
 
-enum { ST_WAITCON, ST_FORWARD, ST_TOKEN, ST_PENDING, ST_NOSERVICE, N_ST };
-static const char *st_name[N_ST] = { "WAIT_CON_REQ", "FORWARD", "FORWARD+token", "FORWARD+pending-write", "FORWARD+no-services" };
+enum { ST_WAITCON, ST_FORWARD, ST_TOKEN, ST_PENDING, ST_NOSERVICE, ST_NODEVICE, N_ST };
+static const char *st_name[N_ST] = { "WAIT_CON_REQ", "FORWARD", "FORWARD+token", "FORWARD+pending-write", "FORWARD+no-services", "FORWARD+no-services, capture device closed" };
 
 enum { AFT_NONE, AFT_SILENCE, AFT_SILENCE_TIMEOUT, AFT_DISCONNECT, N_AFT };
 static const char *aft_name[N_AFT] = { "continue", "silence", "silence+70s", "disconnect" };
@@ -543,6 +543,14 @@ static void check_witness(const char *key, const struct fcase *fc, int frames_ex
         env_client *w = &env_clnt[W];
         if (w->eof || w->fd < 0) { mc_violation(key, "witness connection dropped"); return; }
         int next = 0, bad = 0;
+        if (fc->state == ST_NODEVICE) {
+                /* the witness has no services: it is owed no frame, whatever the other client makes the device capture */
+                for (int i = 0; i < w->nlog; i++) {
+                        if (w->log[i].type == 0xFFFFFFFF) { mc_violation(key, "witness received garbage framing (len %u)", w->log[i].len); return; }
+                        if (w->log[i].type == MSG_TYPE_SLICED_IND) { mc_violation(key, "witness without services received frame %d", w->log[i].frame); return; }
+                }
+                return;
+        }
         for (int i = 0; i < w->nlog; i++) {
                 env_rxmsg *m = &w->log[i];
                 if (m->type == 0xFFFFFFFF) { mc_violation(key, "witness received garbage framing (len %u)", m->len); return; }
@@ -607,7 +615,8 @@ static void scenario(const struct fcase *fc, int mode, struct run_result *rr, co
         env_cap.use_thread = 0; env_cap.fail_open = 0;
         env_init(); reset_observer();
         cur_letter = "fault scenario"; cur_sender_state = -1;
-        full_connect(W, VBI_SLICED_TELETEXT_B | VBI_SLICED_VPS, 0);
+        /* ST_NODEVICE: nobody has services, the capture device stays closed (no frames); W is connected without services */
+        if (fc->state == ST_NODEVICE) full_connect(W, 0, 0); else full_connect(W, VBI_SLICED_TELETEXT_B | VBI_SLICED_VPS, 0);
         drive(act_frame, 1); frames++;
         if (mode == 0) {
                 switch (fc->state) {
@@ -616,7 +625,7 @@ static void scenario(const struct fcase *fc, int mode, struct run_result *rr, co
                 case ST_TOKEN:   full_connect(F, VBI_SLICED_TELETEXT_B, 0);
                                  tk_prio = VBI_CHN_PRIO_BACKGROUND; tk_valid = 1; tk_sub = 0x10; tk_dur = 0; drive(act_token_req, F); break;
                 case ST_PENDING: full_connect(F, VBI_SLICED_TELETEXT_B, 0); env_clnt[F].stalled = 1; break;
-                case ST_NOSERVICE: full_connect(F, 0, 0); break;
+                case ST_NOSERVICE: case ST_NODEVICE: full_connect(F, 0, 0); break;
                 }
         }
         drive(act_frame, 1); frames++;
@@ -632,10 +641,12 @@ static void scenario(const struct fcase *fc, int mode, struct run_result *rr, co
         drive(act_frame, 2); frames += 2;
         if (mode == 0 && fc->aft == AFT_SILENCE_TIMEOUT) { drive(act_tick, 70); drive(act_frame, 1); frames++; }
         else { drive(act_tick, 1); drive(act_frame, 1); frames++; }
+        if (fc->state == ST_NODEVICE) frames = env_cap.produced;      /* a closed device captures nothing (a fault that opens it: frames count from there) */
         check_witness(key, fc, frames, flush_allowed);
         if (mode == 0 && env_clnt[F].fd >= 0) drive(act_disconnect, F);
         drive(act_tick, 1);
         drive(act_frame, 1); frames++;
+        if (fc->state == ST_NODEVICE) frames = env_cap.produced;
         check_witness(key, fc, frames, flush_allowed);
         if (mode == 0 && env_req(F)) mc_violation(key, "the faulty client's record is still present after it disconnected");
         /* queue reference counts: every queued buffer is referenced by exactly the clients at or before it */
@@ -657,8 +668,10 @@ static void scenario(const struct fcase *fc, int mode, struct run_result *rr, co
                                 (uint64_t) r->chn_state.token_state, (uint64_t) r->chn_prio, (uint64_t) r->io.writeLen, (uint64_t) r->io.readOff };
                         mc_hash_add(&h, v, sizeof v);
                 }
-                uint64_t g[] = { (uint64_t) proxy.clnt_count, (uint64_t)(proxy.dev[0].p_capture != NULL), proxy.dev[0].all_services,
-                        (uint64_t) env_cap.is_open, env_cap.last_commit_union };
+                /* while the device is closed its service mask and the device model's last programmed union are history, not state */
+                int open = proxy.dev[0].p_capture != NULL;
+                uint64_t g[] = { (uint64_t) proxy.clnt_count, (uint64_t) open, open ? proxy.dev[0].all_services : 0,
+                        (uint64_t) env_cap.is_open, env_cap.is_open ? env_cap.last_commit_union : 0 };
                 mc_hash_add(&h, g, sizeof g);
         }
         rr->final_hash = h.a ^ h.b; rr->frames = frames;
@@ -668,7 +681,7 @@ static void scenario(const struct fcase *fc, int mode, struct run_result *rr, co
         env_shutdown();
 }
 
-static uint64_t ref_final; static int ref_fds = -1;
+static uint64_t ref_final, ref_final_nodev; static int ref_fds = -1;
 static uint64_t strict_images[2][N_ST][4][2]; static int strict_images_ok;
 static uint64_t strict_closed_image[2][N_ST][2];
 
@@ -699,6 +712,8 @@ static void ensure_refs(void)
         struct run_result rr; memset(&rr, 0, sizeof rr); struct fcase dummy = { 0 };
         mc_case("reference run without a faulty client", "setup");
         scenario(&dummy, 1, &rr, "reference run without a faulty client"); ref_final = rr.final_hash;
+        dummy.state = ST_NODEVICE;
+        scenario(&dummy, 1, &rr, "reference run without a faulty client"); ref_final_nodev = rr.final_hash;
         /* images for the strict oracle: the four in-range values and a rejection, per state and message */
         for (int which = 0; which < 2; which++) for (int st = 0; st < N_ST; st++) {
                 for (int r = 0; r < 4; r++) {
@@ -727,7 +742,7 @@ static void fault_case(uint64_t idx, void *arg)
                 size_t heap0 = heap_now();
                 struct run_result rr; memset(&rr, 0, sizeof rr);
                 scenario(fc, 0, &rr, key);
-                if (rr.final_hash != ref_final) mc_violation(key, "%s: daemon state after the faulty client left differs from a run without it", det);
+                if (rr.final_hash != (fc->state == ST_NODEVICE ? ref_final_nodev : ref_final)) mc_violation(key, "%s: daemon state after the faulty client left differs from a run without it", det);
                 int fds1 = count_open_fds();
                 if (fds0 >= 0 && fds1 != fds0) mc_violation(key, "%s: %d file descriptors leaked", det, fds1 - fds0);
                 /* heap bytes in use must be back at the level before the scenario; LeakSanitizer (slow) names the block */
